@@ -32,8 +32,7 @@ FEATURES = []
 TIERS = {
     "quick": [{"N": 3, "K": 5, "covers": ["cascade2", "derived", "survivor"]}],
     "thorough": [{"N": 4, "K": 4, "covers": ["cascade2", "derived"]},
-                 {"N": 4, "K": 5, "covers": ["cascade2", "derived", "survivor"]},
-                 {"N": 4, "K": 6, "covers": ["cascade2", "derived", "survivor"]}],
+                 {"N": 4, "K": 5, "covers": ["cascade2", "derived", "survivor"]}],
 }
 ASSUMPTIONS = [
     "every premise is live when its justification is recorded; handles are fresh increasing integers (as allocated by WorkingMemory)",
